@@ -126,6 +126,23 @@ def run(c):
             k, p, jd, n = part
             t = c.record(normal, [p, jd], out=c.path("capi-%s-%d.ndjson" % (tag, k)), timeout=1200,
                          env={"VERIF_SEED": seed}, sig={"stage": "replay", "clause": "crash"})
+            # a replay that crashed (already registered as a violation by c.record) can leave an empty
+            # trace or a torn last line: neither may turn the verdict into an infrastructure error
+            try:
+                ls = open(t).read().splitlines()
+            except OSError:
+                ls = []
+            good = []
+            for ln in ls:
+                try:
+                    json.loads(ln)
+                    good.append(ln)
+                except Exception:
+                    c.note("replay part %d: dropped a torn trace line after a crash" % k)
+            if not good:
+                return dict(total=0, consumed=0, bad=[], lines=[])
+            if len(good) != len(ls):
+                open(t, "w").write("\n".join(good) + "\n")
             return c.tlc_trace("C20Trace", t, label="%s part %d (%d sequences, seed %d)" % (tag, k, n, seed),
                                timeout=1500, heap="6g")
 
